@@ -1582,7 +1582,9 @@ def mwor_system(num_warehouses, node_order_in_system=None, node_order_in_lists=N
 	local_kwargs = copy.deepcopy(kwargs)
 	# Set demand_source parameter so it only occurs at retailer node.
 	if 'demand_source' not in local_kwargs:
-		local_kwargs['demand_source'] = {}
+		# No demand_source provided; blank out the warehouses, so that demand attributes given per node
+		# (e.g., demand_type as a list or dict with entries for the warehouses) build a demand source at the retailer only.
+		local_kwargs['demand_source'] = {n: DemandSource() for n in node_order_in_system[0:-1]}
 	elif isinstance(local_kwargs['demand_source'], DemandSource):
 		# demand_source provided as singleton; convert to dict.
 		local_kwargs['demand_source'] = {n: DemandSource() for n in node_order_in_system[0:-1]}
